@@ -2,6 +2,7 @@
    Print Assumptions. The statements are about every trace admitted by the protocol model (Sim/Proto.v,
    rules with constants regenerated from /repo), at every position of the trace. *)
 From LE Require Import Base Ev World Mon Mon2 Proto Consts GenGuards Config ConfigSpec GenConfig SimBasics SimOwn SimCallbacks SimTheorems GuardFacts Timing Witness.
+From LE Require Import Locks GenLocks Race RaceFacts RaceNow.
 Open Scope Z_scope.
 
 Theorem C09_stopped_never_claims :
@@ -14,3 +15,6 @@ Theorem C09_stop_waits_five_seconds :
 Proof. exact stop_default_timeout_agree. Qed.
 Print Assumptions C09_stop_waits_five_seconds.
 
+Theorem C09_no_lock_order_cycle : has_cycle (order_edges acquires) = false.
+Proof. exact lock_order_acyclic_now. Qed.
+Print Assumptions C09_no_lock_order_cycle.
